@@ -116,6 +116,12 @@ def option_as_deref(ex, args, callee):
         inner = v.fields[0]
         if isinstance(inner, Str):
             return some(inner.as_type('str'))
+        if isinstance(inner, ArcV):
+            if not isinstance(inner.cell.v, ArcInner):
+                raise Unsupported('use of dropped Arc')
+            return some(ArcInnerRef(inner.cell))
+        if isinstance(inner, BoxV):
+            return some(Ref(inner.cell, (), False))
         raise Unsupported('as_deref of %r' % (inner,))
     return NONE
 
@@ -360,9 +366,9 @@ def from_generic(ex, args, callee):
 # Vec / slices / iterators
 # ----------------------------------------------------------------------------------
 
-@stub('Vec::new')
+@stub('Vec::new', 'Vec::with_capacity')
 def vec_new(ex, args, callee):
-    m = re.search(r'Vec::<(.*)>::new$', callee.strip())
+    m = re.search(r'Vec::<(.*)>::(?:new|with_capacity)$', callee.strip())
     return Vec((), type_key(m.group(1)) if m else '')
 
 
